@@ -284,7 +284,10 @@ theorem explorer_outputs_in_orbit (np nlc : Nat) (iso : BMat) (hr : iso.r = np) 
     local complementations), `lc_check(…, validate=True)` is total and after a `yes` returns validated gates (C09 `lc_check_total_and_right`:
     neither the assertion of `converter_gate_list` nor the validation warning can fire), `str_to_op` knows every gate name `lc_check` emits
     (`Alt.lcCheckR_names`), and the loops only pass exceptions on.  `hyes` is decidable; the modelled conversion is run by the driver on every
-    observed pair and compared with the implementation's. -/
+    observed pair and compared with the implementation's.  NOT part of the model: the second, redundant validation inside the same `try`
+    (`state_converter_circuit(lc, iso, validate=True)`: the gate list compiled by the stabilizer backend from `|lc⟩`, `Infidelity = 0` asserted) —
+    by C09 the gates map `|lc⟩` exactly onto `|iso⟩`, so it can only fail through the compiler or the metric (C01, C18); on the observed runs
+    every raise of `solve()` on a connected target is reported as a violation. -/
 theorem alternate_target_returns_if_yes (pick : List Nat → Nat) (np : Nat) (target : Nat → Nat → Bool)
     (isoAdjs : List BMat) (lcGraphs : BMat → List BMat) (relabelMap : BMat → List Nat)
     (hnp : 0 < np) (htarget : Simple np target) (hniso : Alt.NoIsolated np target)
